@@ -90,6 +90,9 @@ var c13Witness = []string{
 	"SELECT 1h % 0s, 1h / 0s, 5 % 0, 5 / 0 FROM m",
 	"SELECT v FROM m WHERE time > 9223372036854775807 AND time < -9223372036854775808",
 	"SELECT v FROM m WHERE time = 1e300",
+	"SELECT v FROM m WHERE f !~ /^$/ / 2 > true",
+	"SELECT v FROM m WHERE f =~ /a/ + 1 AND g !~ /b/ * h",
+	"SELECT time, time, v, time AS t FROM m",
 }
 
 func checkC13(c *Ctx) (string, bool, []string) {
